@@ -37,8 +37,9 @@ class Loop:
 
 
 class Closure:
-    def __init__(self, index, params, ret, requires=(), ensures=()):
+    def __init__(self, index, params, ret, requires=(), ensures=(), first_stmt=None):
         self.index, self.params, self.ret = index, params, ret
+        self.first_stmt = first_stmt  # e.g. `let (i, x) = p;` when a tuple-pattern parameter had to become a variable
         self.requires, self.ensures = list(requires), list(ensures)
 
 
@@ -283,6 +284,25 @@ def rewrite_R8_continue(text):
 
 
 
+
+def call_paren(toks, i):
+    """toks[i] is a method name; return index of the `(` of its call, skipping an optional turbofish; None if not a call"""
+    j = i + 1
+    if toks[j].text == "::" and toks[j + 1].text == "<":
+        d, k = 0, j + 1
+        while k < len(toks):
+            if toks[k].text == "<":
+                d += 1
+            elif toks[k].text == ">":
+                d -= 1
+            elif toks[k].text == ">>":
+                d -= 2
+            if d <= 0:
+                break
+            k += 1
+        j = k + 1
+    return j if toks[j].text == "(" else None
+
 def recv_start(toks, dot):
     """index of the first token of the postfix-expression that ends right before toks[dot] (a `.`)"""
     j = dot - 1
@@ -316,11 +336,11 @@ def rewrite_ANF_chain(text, last_method, occurrence, nstages, proofs):
     """R10: let-bind the last `nstages` method calls of a chain ending in `.last_method(..)` (A-normal form).
     proofs: {stage_index: proof text placed after that stage's let}"""
     toks = tokenize(text)
-    hits = [i for i, t in enumerate(toks) if t.text == last_method and toks[i - 1].text == "." and toks[i + 1].text == "("]
+    hits = [i for i, t in enumerate(toks) if t.text == last_method and toks[i - 1].text == "." and call_paren(toks, i) is not None]
     if occurrence >= len(hits):
         raise Undecided(f"R10: no `.{last_method}(` #{occurrence}")
     last = hits[occurrence]
-    end = match_close(toks, last + 1)
+    end = match_close(toks, call_paren(toks, last))
     # collect the stage boundaries walking backwards: each stage is `.name(args)` (optionally `::<..>` not supported)
     stages = []  # (dot_index, close_index)
     dot = last - 1
@@ -355,7 +375,7 @@ def rewrite_ANF_chain(text, last_method, occurrence, nstages, proofs):
     for si, (d, c) in enumerate(stages):
         call = text[toks[d].start:toks[c].end]
         # hoist a closure argument into its own let so proofs can name it
-        op = d + 2
+        op = call_paren(toks, d + 1)
         if toks[op + 1].text in ("|", "||") and si != len(stages) - 1:
             clo = text[toks[op + 1].start:toks[c].start]
             out += f"let __cl{si} = {clo}; "
@@ -392,6 +412,17 @@ def apply_rewrites(text, rewrites):
             text = rewrite_R3_for_each(text, rw[1] if len(rw) > 1 else 0)
         elif rw[0] == "R8":
             text = rewrite_R8_continue(text)
+        elif rw[0] == "RENAME":   # R12: an identifier clashing with a Verus builtin name is renamed throughout the function
+            toks_ = tokenize(text)
+            ed_ = Edit(text)
+            n_ = 0
+            for t_ in toks_:
+                if t_.kind == "ident" and t_.text == rw[1]:
+                    ed_.replace(t_.start, t_.end, rw[2])
+                    n_ += 1
+            if n_ == 0:
+                raise Undecided(f"R12: identifier {rw[1]} not found")
+            text = ed_.apply()
         elif rw[0] == "ROOT":
             text = rewrite_ROOT(text, rw[1], rw[2], rw[3], rw[4] if len(rw) > 4 else True)
         elif rw[0] == "ANF":
@@ -584,6 +615,8 @@ def annotate_fn(f, override_requires=None, canary=False, drop_body=False):
         body_first = bar_close + 1
         if toks[body_first].text == "{":
             ed.insert(toks[body_first].start, ann + "            ")
+            if cl.first_stmt:
+                ed.insert(toks[body_first].end, " " + cl.first_stmt + " ")
         else:
             # expression body: wrap in a block; expression ends at `,` or closing bracket at depth 0
             m = body_first
